@@ -25,16 +25,29 @@ P = {
                   'executes twice, the sequence ends at n + 1); (2e) events: histories that mix submissions, wrapped submissions, transactions with '
                   'creations and account-type operations (conversion into a vesting account by a third party, merge, conversion back -- a transaction of '
                   'its own signers that leaves its target\'s sequence alone): sequences never decrease, at most once, a message executed once is never '
-                  'executed again whatever lies between; (3) *_partial: under explicit premises ECDSA '
+                  'executed again whatever lies between; (2f) the message as it travels: a MsgEthereumTx carries Data and two self-reported texts, Hash and From '
+                  '(emsg of TxCodec/EthTxModel.v); the validation binds Hash to Data (ValidateBasic recomputes it from the conversion of Data) and demands an '
+                  'empty From, and who a message is authenticated as, the nonce compared with the sequence and what executes are functions of Data alone, '
+                  'computed afresh at every use (auth_emsg): for given Data at most one (Hash, From) pair passes and the account is the same whatever is '
+                  'claimed; a Cosmos transaction containing one message whose Hash text is not the hash of its own Data (the hash of an executed or merely '
+                  'validated transaction, of another account\'s, any text) or whose From text is not empty is refused as a whole without effect, for every '
+                  'state, whatever stands beside it and whatever was validated or executed before; at most once over all histories of messages whatever '
+                  'they claim; on messages as FromEthereumTx writes them the machine of messages is the machine of transactions; a process-wide memo '
+                  '"Hash text -> converted transaction" consulted by the self-reported Hash (NOT the code) is REFUTED: T executes, then T\'s Data with the '
+                  'nonce set to the new sequence, from which no account is recovered, executes T a second time (memo_replays_refuted); (3) *_partial: under explicit premises ECDSA '
                   'unforgeability and Keccak collision resistance, a transaction executes on behalf of an account only if that account\'s key holder '
-                  'signed exactly its content, chain id and current sequence -- hence single-field mutations and foreign-chain signatures do not. '
+                  'signed exactly its content, chain id and current sequence -- hence single-field mutations and foreign-chain signatures do not; message k of an '
+                  'accepted transaction executes for an account only if that account\'s key holder signed exactly the content of its DATA, and a message whose '
+                  'Data has a content nobody signed poisons the whole transaction whatever its Hash and From texts claim. '
                   'The machine is compared on every run with the real ante handler (all routes, every single-field mutation, chain-id variants, '
                   'replays), with real DeliverTx block histories, and with multi-message Ethereum transactions (built with /repo\'s testutil/tx.PrepareEthTx) '
                   'through the real ante handler and real DeliverTx, executions counted on the recipients\' balances, and with histories in which already '
                   'executed / fresh / future / used-nonce signed messages are carried by every kind of wrapper through the real ante handler and real DeliverTx, '
                   'with batches that contain contract creations (deploying, failing, storing init code) and the re-delivery of all their messages alone and '
                   'in sub-batches, and with account-type operations (x/vesting MsgConvertIntoVestingAccount / merge / MsgConvertVestingAccount) followed by '
-                  'the re-delivery of old signed bytes of all routes',
+                  'the re-delivery of old signed bytes of all routes, and with messages FORGED from transactions the same process has executed / checked before '
+                  '(Data changed with the old V, R, S kept, foreign Hash texts, From texts; alone, inside multi-message envelopes, inside wrappers) through '
+                  'the real ValidateBasic, ante handler, CheckTx and DeliverTx',
     'level_note': 'partial: ECDSA (secp256k1 sign/recover/verify) and Keccak-256 are NOT modelled -- they enter the theorems as arbitrary functions '
                   'and the negative direction carries unforgeability / collision resistance as named premises; the correspondence run uses the real '
                   'ones and feeds the model what they answered (recovered sender; which sign doc a signature was made over). Cosmos / EIP-712 routes '
@@ -50,7 +63,7 @@ P = {
                   'From HV Require Import TxCodec.EthTxModel Ante.SigModel.\nImport ListNotations.\nLocal Open Scope string_scope.',
     'lists': {'cases': {'type': 'list hist', 'check': 'mismatches_groups', 'shard': 40}},
     'search': {'rounds': 3, 'n': 600},
-    'rule': 'six cases in twelve: one signed transaction of one route (eth legacy / access-list / dynamic-fee, cosmos direct / amino, EIP-712 via '
+    'rule': 'five cases in twelve: one signed transaction of one route (eth legacy / access-list / dynamic-fee, cosmos direct / amino, EIP-712 via '
             'Web3 extension / via the ethsecp256k1 key) on a real app through the real ante handler: every single-field mutation on its own branch of '
             'the state (eth: nonce, prices, gas, to, value, data, access list, chain id field or V, V/R/S tweaks, s-malleation, type change, ten '
             'envelope fields; cosmos: message, memo, fee, gas, timeout, signer-info sequence and key, signature bytes, extension fields), the same '
@@ -85,7 +98,29 @@ P = {
             'of an account-type operation against the victim (MsgConvertIntoVestingAccount by another account through a direct / amino / EIP-712 '
             'signed transaction, then merge or MsgConvertVestingAccount back), the re-delivery of EVERY old signed transaction of the victim in random '
             'order and 1-2 fresh ones; oracle: no sequence ever decreases, a signed Cosmos / EIP-712 transaction executes at most once and only at the '
-            'sequence it was signed over, the Ethereum oracle as before. Non-trivial = at least one acceptance and more than three submissions; distinct = distinct seeds',
+            'sequence it was signed over, the Ethereum oracle as before. FORGED FOLLOW-UPS (process history as an input): every eth mutation case ends, '
+            'after its main line has validated and executed original .. last for the signer in THIS process, with 14 forged messages, each on its own '
+            'branch of the final state through ValidateBasic + the real ante handler: Data of the original (or of the last executed transaction) with the '
+            'nonce set to the signer\'s current sequence, alone or with value / recipient / gas changed too, the old V, R, S kept, under the Hash text of '
+            'the original, of the last executed transaction, a recomputed or a random one; value changed under the original\'s Hash text; a From text naming '
+            'the signer; a fresh transaction of the other account under the original\'s Hash text / with a From text naming the signer; oracle: none '
+            'executes on behalf of the signer (sequence, balance). The envelope mutants env-hash-field / env-from-set and all of these are recorded as SEthMsg '
+            '(hash_bound, from_empty): the model refuses them by its own rule, the errors "invalid tx hash" / "invalid From" count as modelled checks. One case '
+            'in twelve (kind forged, from the mutation cases, the runner of kind multi, explicit script): a fresh chain, 2-3 senders, a first genuine '
+            'transaction, then 6-10 steps: genuine Ethereum-route transactions 16%, a genuine transaction that is only CHECKED (ValidateBasic + ante in CheckTx '
+            'mode on a discarded branch, and the application\'s real CheckTx once a block was committed; it may be delivered later) 10%, and 74% Cosmos '
+            'transactions with messages forged from a transaction that was executed (65%), only checked (15%) or never shown to the node (20%): nonce := the '
+            'victim\'s sequence at that point under the Hash text of the transaction as signed 30%, with a second field (value / recipient / gas / payload) '
+            'changed 8%, one field changed and the nonce kept 8%, Hash recomputed 10%, Hash text of another earlier transaction of any account over changed '
+            'Data 10% / over Data as signed 10%, a From text naming the victim 8%, Data as signed with a From text 6%, random Hash text 10%; placed alone '
+            '50%, behind / before a genuine message of the victim 14 / 8%, beside a genuine message of another sender 10%, two forgeries in one envelope 10%, '
+            'carried by a Cosmos transaction (plain message or 1-2 nested authz.MsgExec, own or another signer) 8%; a block boundary in half of them; '
+            'all through the real ante handler and real DeliverTx in ONE process without re-creating the application. Oracle (as for all multi cases, '
+            'computed from each message\'s DATA: the account its V, R, S recover to over Data, Data\'s nonce, recipient, value, cost): a message whose Data '
+            'nobody signed (the recovered stranger cannot pay) or that was executed before makes the whole Cosmos transaction fail without effect; nobody\'s '
+            'sequence moves and nobody pays unless a message whose Data he signed at his then-current sequence executes; every signed Data at most once; '
+            'correctly signed Data at the current sequence under a Hash / From text that is not its own may be refused (not judged) but, if served, only on '
+            'behalf of the signer of Data; a transaction that was only checked changes nothing. Non-trivial = at least one acceptance and more than three submissions; distinct = distinct seeds',
     'trusted_base': [
         'Coq 8.16.1 kernel incl. vm_compute (no native_compute)',
         'axioms: none (Print Assumptions: closed under the global context for every theorem of Props/C03.v)',
@@ -100,6 +135,9 @@ P = {
         'wrapped cases: cosmos-sdk x/authz MsgExec / keeper.SaveGrant and /repo testutil/tx PrepareCosmosTx / CreateEIP712CosmosTx build and sign the '
         'carriers; modelled by their verdict only: RejectMessagesDecorator, AuthzLimiterDecorator (disabled message types), the message type '
         'assertions of the Ethereum ante decorators, authz keeper DispatchActions',
+        'forged messages: the two facts about the self-reported texts the model looks at (Hash text = go-ethereum\'s hash of the converted Data; From '
+        'text empty) are computed by the harness; MsgEthereumTx.ValidateBasic and EthValidateBasicDecorator are compared with claims_ok on every run '
+        '(error texts "invalid tx hash" / "invalid From"); /repo testutil/tx.PrepareEthTx builds the envelope (From texts are written after it)',
         'creations: the nonce rule of x/evm ApplyMessageWithConfig is transcribed (max(nonce before, m + 1), kept only when the EVM execution '
         'succeeds); the EVM itself (whether a creation succeeds) enters as the recorded flag create_ok; account-type operations: x/vesting '
         'ApplyVestingSchedule / ConvertVestingAccount are modelled by their effect on sequences only (none on the target)',
